@@ -85,15 +85,26 @@ fn query(n: u64, kf: u64, w: &str) -> String {
 /// heap level (cells) right after `vf_run(n,kf,nop,R)` delivered its answer, and the growth
 /// attempts made by that run
 fn level(first: bool, n: u64, kf: u64) -> Result<(u64, u64), String> {
+    level_w(first, n, kf, "nop", "ok")
+}
+
+fn level_w(first: bool, n: u64, kf: u64, w: &str, expected: &str) -> Result<(u64, u64), String> {
     let mut m = mk(first);
-    let o = run_first_and_freeze(&mut m, &query(n, kf, "nop"), &mut || alloc_fault::reset_attempts());
+    let o = run_first_and_freeze(&mut m, &query(n, kf, w), &mut || alloc_fault::reset_attempts());
     let a = alloc_fault::attempts();
     let l = m.verif_footprint().heap_cells as u64;
     std::mem::forget(m);
     match o {
-        QOut::R(r) if r == "ok" => Ok((l, a)),
-        other => Err(format!("nop run gave {}", other.short())),
+        QOut::R(r) if r == expected => Ok((l, a)),
+        other => Err(format!("{w} run gave {}", other.short())),
     }
+}
+
+/// cells the workload leaves on the heap (its allocation span when it does not backtrack)
+fn span_of(first: bool, w: &Workload) -> Result<u64, String> {
+    let (l0, _) = level(first, 1000, 0)?;
+    let (l1, _) = level_w(first, 1000, 0, w.name, w.expected)?;
+    Ok(l1.saturating_sub(l0))
 }
 
 #[derive(Clone, Debug, Serialize, Deserialize)]
@@ -298,7 +309,7 @@ fn child_group(g: &GroupIn) -> i32 {
             }
         }
         let mut dead = dead;
-        if !dead && sig.is_none() {
+        if SECOND_FAULT && !dead && sig.is_none() {
             // the same fault once more on the recovered machine (the failed growth left the capacity
             // unchanged, so the run meets the same situation again): it must be handled again
             let o2 = run_first(&mut m, &q, &mut || alloc_fault::arm(k, !g.persist), &mut || alloc_fault::disarm());
@@ -309,10 +320,10 @@ fn child_group(g: &GroupIn) -> i32 {
             };
             if let QOut::Panic(p) = &o2 {
                 dead = true;
-                sig = Some(format!("second-fault:panic:{}@{}", panic_loc(p), w.name));
+                sig = Some(format!("second-fault:panic:{}", panic_loc(p)));
                 detail = format!("the first injected fault was handled ({outcome}); the same fault injected again on the recovered machine panicked: {p}");
             } else if !ok2 {
-                sig = Some(format!("second-fault:wrong@{}", w.name));
+                sig = Some("second-fault:wrong".to_string());
                 detail = format!("the first injected fault was handled ({outcome}); the same fault injected again on the recovered machine gave {}", o2.short());
             } else {
                 classes.push("second-fault:handled".into());
@@ -346,7 +357,10 @@ fn child_group(g: &GroupIn) -> i32 {
                 }
             }
         }
-        if g.persist {
+        if sig.as_deref().map(|s| s.starts_with("second-fault:")).unwrap_or(false) {
+            // the second fault necessarily runs on a machine that has completed a query before
+            sig = sig.map(|s| format!("used-machine:{s}"));
+        } else if g.persist {
             sig = sig.map(|s| format!("persistent:{}", s.split('@').next().unwrap_or(&s)));
         } else if !g.first {
             // On a machine that has run a query before, QueryState::drop has truncated the heap to
@@ -369,22 +383,30 @@ fn child_group(g: &GroupIn) -> i32 {
 
 // below 26 free cells the crossing happens at one and the same reservation that every run makes
 // before the workload's own allocations; from 26 on it moves through the workload's allocations
-const D_QUICK: &[u64] = &[0, 12, 26, 27, 28, 29, 31, 34, 41, 57, 120, 500];
+const D_MIN: u64 = 26;
 
-fn d_list(tier: Tier) -> Vec<u64> {
-    match tier {
-        Tier::Quick => D_QUICK.to_vec(),
-        Tier::Thorough => {
-            let mut v: Vec<u64> = vec![0, 6, 12, 18, 24];
-            v.extend(26..90);
-            let mut x = 92u64;
-            while v.len() < 84 {
-                v.push(x);
-                x += 3 + x / 9;
-            }
-            v
-        }
+/// Re-inject the same fault on the recovered machine. Disabled: after its first query every
+/// machine is a "used" machine, whose pre-allocated resource error is overwritten (known finding
+/// used-machine:*), and converting the resulting garbage ball (it contains the 100k-cell fill
+/// list) through Term::from_heapcell takes half a minute per injection.
+const SECOND_FAULT: bool = false;
+
+/// distances for a workload whose allocations span `span` cells: the crossing must be able to land
+/// anywhere in the workload, so the distances are spread over the whole span (with an irregular
+/// offset so that they do not alias with the period of an allocation loop)
+fn d_list(tier: Tier, span: u64) -> Vec<u64> {
+    let (low, dense, spread): (Vec<u64>, u64, u64) = match tier {
+        Tier::Quick => (vec![0], 1, 10),
+        Tier::Thorough => (vec![0, 6, 12, 18, 24], 32, 47),
+    };
+    let mut v = low;
+    v.extend(D_MIN..D_MIN + dense);
+    for i in 1..=spread {
+        v.push(D_MIN + dense + (span * i) / (spread + 1) + (i * 5) % 7);
     }
+    v.sort();
+    v.dedup();
+    v
 }
 
 struct GroupRes {
@@ -477,7 +499,7 @@ impl Prop for C30 {
         "fault_enumeration"
     }
     fn rule(&self) -> &'static str {
-        "for each catalogued workload W (term construction, copy_term, findall, assertz, atom/string building, bignum text, reading, sorting, length, format_, big exception ball, bagof/setof; thorough adds 23 more) x each pre-fill distance d (free heap cells when W starts: 12 values 0..500 quick, 84 values thorough) x machine history (first query ever / used machine) x failure mode (one-shot / persistent until the query returns): every heap-growth attempt k of the run (counted on an unfaulted run by the hook) is failed on a fresh machine; non-trivial = the injected failure fired (hook counter) after the mark that is set as the first goal inside the catch/3 around W; distinct by (W, d, history, mode, k)"
+        "for each catalogued workload W (term construction, copy_term, findall, assertz, atom/string building, bignum text, reading, sorting, length, format_, big exception ball, bagof/setof; thorough adds 23 more) x each pre-fill distance d (free heap cells when W starts: 12 values quick / ~84 thorough, spread over the whole allocation span of W so the doubling can land on any of W's allocations) x machine history (first query ever / used machine) x failure mode (one-shot / persistent until the query returns): every heap-growth attempt k of the run (counted on an unfaulted run by the hook) is failed on a fresh machine; non-trivial = the injected failure fired (hook counter) after the mark that is set as the first goal inside the catch/3 around W; distinct by (W, d, history, mode, k)"
     }
     fn assumptions(&self) -> Vec<String> {
         vec![
@@ -592,10 +614,25 @@ impl Prop for C30 {
     fn run_shard(&self, cfg: &ShardCfg) -> ShardResult {
         let mut d = Driver::new(cfg, "C30");
         let ws: Vec<&Workload> = WORKLOADS.iter().filter(|w| !w.c31_only && (cfg.tier == Tier::Thorough || w.c30_quick)).collect();
-        let ds = d_list(cfg.tier);
         let mut groups: Vec<(String, u64, bool, bool)> = vec![];
+        let mut spans: std::collections::BTreeMap<String, u64> = Default::default();
         for (first, persist) in modes() {
             for w in &ws {
+                let span = match spans.get(w.name) {
+                    Some(s) => *s,
+                    None => {
+                        let s = match span_of(true, w) {
+                            Ok(s) => s,
+                            Err(e) => {
+                                d.note(format!("span of {} not measured ({e}); using 3000", w.name));
+                                3000
+                            }
+                        };
+                        spans.insert(w.name.to_string(), s);
+                        s
+                    }
+                };
+                let ds = d_list(cfg.tier, span);
                 for (i, dd) in ds.iter().enumerate() {
                     // the used-machine history and the persistent failure mode are each dominated by
                     // one known defect: every 4th distance only
@@ -674,6 +711,9 @@ impl Prop for C30 {
             }
         }
         d.res.extra.insert("groups".into(), json!(groups_done));
+        if cfg.shard == 0 {
+            d.res.extra.insert("workload_spans_cells".into(), json!(spans));
+        }
         d.res.extra.insert("injections".into(), json!(injections));
         for (site, n) in &panic_sites {
             d.res.extra.insert(format!("site {site}"), json!(n));
